@@ -140,3 +140,13 @@ add("r18_2_halfeven_incl", "C18", "R18.2", "HalfEven",
 
 add("r13_4_one_mod1", "C13", "R13.4", "ReducedWord::one",
     [("integer/src/modular/repr.rs", "        if one == ring.normalized_divisor() {\n            // the only residue modulo 1 is zero\n            Self(0)\n        } else {\n            Self(one)\n        }", "        Self(one)")])
+
+# ---- bound polarity (R10.4 / R03.6 / R05.3c) --------------------------------------------------------
+add("pol_cmp_same_side", "C05", "R05.3c", "repr_cmp",
+    [("float/src/cmp.rs", "    if lhs_lo > rhs_hi {\n        return Ordering::Greater;\n    }", "    if lhs_lo > rhs_lo {\n        return Ordering::Greater;\n    }")])
+add("pol_neg_exponent", "C10", "R10.4", "log2_bounds",
+    [("float/src/log.rs", "            (logs_lb + e * logb_ub, logs_ub + e * logb_lb)", "            (logs_lb + e * logb_lb, logs_ub + e * logb_ub)")])
+add("pol_digits_ub", "C03", "R03.6", "digits_ub",
+    [("float/src/repr.rs", "            _ => self.significand.log2_bounds().1 / Self::BASE.log2_bounds().0,", "            _ => self.significand.log2_bounds().1 / Self::BASE.log2_bounds().1,")])
+add("pol_half_test", "C10", "R10.4", "round_fract",
+    [("float/src/round.rs", "            if lb + 0.999 > b_ub * precision as f32 {", "            if ub + 0.999 > b_ub * precision as f32 {")])
